@@ -136,10 +136,10 @@ func (prop) Generate(rng *core.Rand, tier string, emit0 func(string)) {
 			emit0(l)
 		}
 	}()
-	nCA, nAS, nFaultAS := 1200, 50, 24
+	nCA, nAS, nFaultAS := 700, 50, 24
 	switch tier {
 	case "thorough":
-		nCA, nAS, nFaultAS = 40000, 500, 300
+		nCA, nAS, nFaultAS = 30000, 500, 300
 	case "search":
 		nCA, nAS, nFaultAS = 3000, 60, 40
 	}
